@@ -1,6 +1,11 @@
 import TinsModel.Tcp.Spec
 import TinsModel.Basic.Seq32Lemmas
-/- Property C06 — theorems (statements only here; helper lemmas live in TinsModel/Tcp/*). -/
+import TinsModel.Tcp.LemmasRefine
+/- Property C06 — theorems (statements only here; helper lemmas live in TinsModel/Tcp/Lemmas*.lean).
+
+   Conventions: an arrival history is a `List SegD` with the LATEST arrival first (so every suffix is an
+   earlier moment); `runModel isn h` is the code-shaped model of `DataTracker` after the arrivals `h`, started
+   as `DataTracker(isn)`; `frontier h |s|` is the spec's "least position that has not arrived". -/
 namespace Tins.Props.C06
 open Tins Tins.DT
 
@@ -10,5 +15,61 @@ theorem seq_compare_is_absolute_order (isn a b : Nat) (h : a < b + 2147483648) (
     seqCompare (wrap32 (isn + a)) (wrap32 (isn + b)) = if a = b then 0 else if a < b then -1 else 1 := by
   have := seqCompare_abs (isn + a) (isn + b) (by omega) (by omega)
   rw [this]; split <;> split <;> (try split) <;> (try split) <;> omega
+
+/-- **Main theorem, all sizes.** For every stream shorter than 2^31, every initial sequence number (including
+    those for which `isn + |s|` wraps past 2^32) and every valid arrival history — any order, duplication,
+    overlap, re-cut retransmissions, segments starting before the ISN — the observable state of the tracker
+    satisfies the spec, the byte counter being compared modulo 2^32 (it is a `uint32_t`).
+    `HistOK` is suffix-closed, so this is a statement about the state after EVERY arrival. -/
+theorem tracker_refines_spec_wide (s : Bytes) (isn : Nat) (h : List SegD)
+    (hs : s.length < 2147483648) (hisn : isn < 4294967296) (hh : HistOK s h) :
+    specOKw s isn (h.map SegD.seg) (runModel isn h).obs = true := by
+  have hsim := run_sim hs hisn hh
+  have hinv := runAbstract_AInv hh
+  have htot := runModel_TotInv isn h
+  have hk := AInv_frontier hinv
+  have hall := chunks_all_ok (isn := isn) hinv hs
+  unfold specOKw Tracker.obs
+  simp only [hk, hsim.seq, hsim.buf, hsim.payload, hinv.1.payload_eq]
+  have ht : (runModel isn h).total = wrap32 (sumSizes (mapW isn (runAbstract h).buf)) := by
+    rw [← hsim.buf]; exact htot.2
+  rw [ht]
+  unfold sumSizes W at *
+  simp only [beq_self_eq_true, Bool.true_and, Bool.and_true]
+  exact hall
+
+/-- **Main theorem (the property's quantifier: streams of at most 64 KiB).** As above with the byte counter
+    compared exactly: `total_buffered_bytes()` equals the bytes actually held. -/
+theorem tracker_refines_spec (s : Bytes) (isn : Nat) (h : List SegD)
+    (hs : s.length ≤ 65536) (hisn : isn < 4294967296) (hh : HistOK s h) :
+    specOK s isn (h.map SegD.seg) (runModel isn h).obs = true := by
+  have hs' : s.length < 2147483648 := by omega
+  have hsim := run_sim hs' hisn hh
+  have hinv := runAbstract_AInv hh
+  have htot := runModel_TotInv isn h
+  have hk := AInv_frontier hinv
+  have hall := chunks_all_ok (isn := isn) hinv hs'
+  have hlt := AInv_sumSizes_lt hinv hs
+  unfold specOK Tracker.obs
+  simp only [hk, hsim.seq, hsim.buf, hsim.payload, hinv.1.payload_eq]
+  have ht : (runModel isn h).total = sumSizes (mapW isn (runAbstract h).buf) := by
+    rw [htot.2, hsim.buf, sumSizes_mapW]
+    unfold wrap32; omega
+  rw [ht]
+  unfold sumSizes W at *
+  simp only [beq_self_eq_true, Bool.true_and, Bool.and_true]
+  exact hall
+
+/-- the same after every arrival, spelled out: dropping the `n` latest arrivals gives an earlier moment -/
+theorem tracker_refines_spec_every_moment (s : Bytes) (isn : Nat) (h : List SegD)
+    (hs : s.length ≤ 65536) (hisn : isn < 4294967296) (hh : HistOK s h) (n : Nat) :
+    specOK s isn ((h.drop n).map SegD.seg) (runModel isn (h.drop n)).obs = true := by
+  apply tracker_refines_spec s isn _ hs hisn
+  induction n generalizing h with
+  | zero => exact hh
+  | succ n ih =>
+    cases h with
+    | nil => exact hh
+    | cons g h => exact ih h hh.2
 
 end Tins.Props.C06
